@@ -1,5 +1,6 @@
 import Model.Proto
 import Model.Text
+import Model.TextCsv
 /-!
 driver ops for C19 (part 1).  Strings travel as comma-separated Unicode code points (`cps`).
 
@@ -12,6 +13,11 @@ driver ops for C19 (part 1).  Strings travel as comma-separated Unicode code poi
 * `txtO  n ; perm ; tail-cps`              → `s=<cps> ok=<OrdOk> back=<1|0>`
 * `txtOp n ; cps`                          → `ERR` or `vals=…`
 * `txtP  dtype ; values`                   → `s=<cps of ";".join>  back=<1|0>` (`np.fromstring` reads the values back)
+* `csvR  T|T|… ; REC ; REC …`              → `hdr=T|T|… rows=ROW/ROW… read=RECS` (`read=ERR` if the model's reader rejects)
+      `T` = `c<cps>` (a title of the embedded end-result writer), `REC` = `c<cps>|c<cps>… / c<objective> / bestF / n d w h / MAP / MAP / MAP`
+      (cells of the embedded writer; objectives, objective bounds, bin bounds), `MAP` = `c<cps>=int|…`,
+      `ROW` = `c<cps>|…`, `RECS` = records separated by `~`, each `k=v|…/n,d,w,h/MAP/MAP/MAP` (maps sorted by key)
+* `csvRp T|T|… ; ROW ; ROW …`              → `read=RECS` or `read=ERR`   (the model's reader on an arbitrary table)
 -/
 namespace Drv.C19
 open Proto Text Base Pack
@@ -33,6 +39,70 @@ def showItems (l : List Item) : String :=
   "|".intercalate (l.map fun it => s!"{it.w},{it.h},{it.rep}")
 
 def dtypeOfName? (s : String) : Option DType := DType.all.find? (·.name = s)
+
+/-! ### CSV: the embedded end-result codec of the driver is the identity on (title, cell) lists -/
+open Csv
+
+structure DrvER where
+  cells : List (Str × Str)
+  objective : Str
+  bestF : Int
+  deriving DecidableEq
+
+/-- the titles of moptipy's `EndResult` CSV reader (mandatory and optional), in the writer's order -/
+def erKeys : List Str := ["algorithm", "instance", "objective", "encoding", "randSeed", "bestF",
+  "lastImprovementFE", "lastImprovementTimeMillis", "totalFEs", "totalTimeMillis", "goalF", "maxFEs",
+  "maxTimeMillis"].map String.toList
+
+def drvCodec : Codec DrvER where
+  titles data := match data with
+    | [] => []
+    | r :: _ => r.cells.map (·.1)
+  row _ r := r.cells.map (·.2)
+  keys := erKeys
+  read f :=
+    match f "objective".toList, (f "bestF".toList).bind parseInt? with
+    | some o, some b => some ⟨erKeys.filterMap (fun k => (f k).map (fun c => (k, c))), o, b⟩
+    | _, _ => none
+
+def drvView : ErView DrvER := ⟨(·.objective), (·.bestF)⟩
+
+/-- `c<cps>` -/
+def cell? (s : String) : Option Str :=
+  match s.trimAscii.toString.toList with
+  | 'c' :: r => cps? (String.ofList r)
+  | _ => none
+def showCell (s : Str) : String := "c" ++ showCps s
+
+def cells? (s : String) : Option (List Str) :=
+  if s.trimAscii.toString = "" then some [] else (s.splitOn "|").mapM cell?
+
+def map? (s : String) : Option (List (Str × Int)) :=
+  if s.trimAscii.toString = "" then some [] else
+  (s.splitOn "|").mapM (fun kv => match kv.splitOn "=" with
+    | [k, v] => do pure ((← cell? k), (← v.trimAscii.toString.toInt?))
+    | _ => none)
+
+def rec? (titles : List Str) (s : String) : Option (PRec DrvER) :=
+  match s.splitOn "/" with
+  | [cs, o, bf, nums, m1, m2, m3] => do
+      let cells ← cells? cs
+      if cells.length ≠ titles.length then none else
+      match ← ints? nums with
+      | [n, d, w, h] =>
+        pure ⟨⟨titles.zip cells, ← cell? o, ← bf.trimAscii.toString.toInt?⟩, n, d, w, h, ← map? m1, ← map? m2, ← map? m3⟩
+      | _ => none
+  | _ => none
+
+def showMap (m : List (Str × Int)) : String := "|".intercalate (m.map (fun p => s!"{showCell p.1}={p.2}"))
+def showRec (r : PRec DrvER) : String :=
+  "|".intercalate (r.er.cells.map (fun p => s!"{showCell p.1}={showCell p.2}")) ++
+  s!"/{r.nItems},{r.nDiff},{r.binW},{r.binH}/{showMap r.objectives}/{showMap r.objBounds}/{showMap r.binBounds}"
+def showRead (o : Option (List (PRec DrvER))) : String :=
+  match o with
+  | none => "read=ERR"
+  | some rs => "read=" ++ "~".intercalate (rs.map showRec)
+def showRow (r : List Str) : String := "|".intercalate (r.map showCell)
 
 def handle (op rest : String) : Option String :=
   match op, fields rest with
@@ -103,5 +173,15 @@ def handle (op rest : String) : Option String :=
       let s := joinSep ';' (vals.map showInt)
       let back := decide (fromstring dt s = some vals)
       pure s!"s={showCps s} back={if back then 1 else 0}"
+  | "csvR", ts :: recs => do
+      let titles ← cells? ts
+      let rs ← recs.mapM (rec? titles)
+      pure (match prWrite drvCodec rs with
+        | none => "WERR"
+        | some t => s!"hdr={showRow t.header} rows={"/".intercalate (t.rows.map showRow)} {showRead (prRead drvCodec drvView t)}")
+  | "csvRp", ts :: rows => do
+      let header ← cells? ts
+      let rws ← rows.mapM cells?
+      pure (showRead (prRead drvCodec drvView ⟨header, rws⟩))
   | _, _ => none
 end Drv.C19
